@@ -129,12 +129,12 @@ func seed() int64 {
 }
 
 type violationFile struct {
-	Property  string            `json:"property"`
-	Tier      string            `json:"tier"`
-	Config    string            `json:"config"`
-	Violation *core.Obligation  `json:"violation"`
+	Property  string             `json:"property"`
+	Tier      string             `json:"tier"`
+	Config    string             `json:"config"`
+	Violation *core.Obligation   `json:"violation"`
 	Others    []*core.Obligation `json:"other_failures,omitempty"`
-	Replay    string            `json:"replay"`
+	Replay    string             `json:"replay"`
 }
 
 func check(id, tier string) int {
